@@ -691,11 +691,16 @@ func grpcParseTimeout(timeout string) (time.Duration, error) {
 	if !ok {
 		return 0, fmt.Errorf("gRPC protocol error: timeout %q has invalid unit", timeout)
 	}
+	if timeout[0] == '+' || timeout[0] == '-' {
+		// ParseInt would accept a sign. The protocol doesn't: the value is a
+		// string of digits.
+		return 0, fmt.Errorf("gRPC protocol error: invalid timeout %q", timeout)
+	}
 	num, err := strconv.ParseInt(timeout[:len(timeout)-1], 10 /* base */, 64 /* bitsize */)
 	if err != nil || num < 0 {
 		return 0, fmt.Errorf("gRPC protocol error: invalid timeout %q", timeout)
 	}
-	if num > 99999999 { // timeout must be ASCII string of at most 8 digits
+	if num > 99999999 || len(timeout)-1 > 8 { // timeout must be ASCII string of at most 8 digits
 		return 0, fmt.Errorf("gRPC protocol error: timeout %q is too long", timeout)
 	}
 	if unit == time.Hour && num > grpcTimeoutMaxHours {
